@@ -946,12 +946,32 @@ def main(tier: str) -> int:
         zygote.stop()
 
 
+def canonical_captured_history() -> dict:
+    """The shortest histories that show finding F2, run first on every invocation so that the
+    listed findings are re-confirmed (and re-reported as KNOWN-FINDING) each time: the same call
+    twice, for the captured-list writer and for the writer through an alias."""
+    def call(name):
+        return {'op': 'call', 'fn': ['cap', name], 'key': {'root': ['cap', name], 'chain': []}, 'args': [['i', 1]],
+                'ctx': 'FP64', 'rt': 'default', 'cancel': None}
+    return {'seed': 0, 'cfg': {'sub': 'captured', 'nthreads': 1, 'mean_quantum': 1000, 'opcode': False, 'hot_bias': 0.0,
+                               'nops': 4, 'faults': False, 'fault_kinds': [], 'sweep': False},
+            'threads': [[call('bump'), call('bump'), call('bump_alias'), call('bump_alias')]],
+            'schedule': None, 'sched_seed': 1}
+
+
 def _main(tier: str, total: float, parts: list) -> int:
     st = core.Stats()
     violations, herrs, seeds = [], [], []
     runs = 0
     wall = 0.0
     workers = 0
+    canon = canonical_captured_history()
+    kind, out = simulate(canon)
+    if kind == 'ok' and not out['errors']:
+        violations += judge(canon, out)
+        runs += 1
+    else:
+        herrs.append(f'canonical captured history did not run: {kind} {out}')
     for sub, fn, frac in parts:
         res = core.run_batch(PROP + ':' + sub, 'checks.c18', fn, tier=tier, budget_s=total * frac, max_runs=None, chunk=1,
                              chunk_timeout=900.0)
